@@ -30,7 +30,7 @@ class LikelihoodList(Likelihood):
             noise = kwargs.pop("noise")
             # if noise kwarg is passed, assume it's an iterable of noise tensors
             return [
-                likelihood.forward(*args_, {**kwargs, "noise": noise_})
+                likelihood.forward(*args_, **{**kwargs, "noise": noise_})
                 for likelihood, args_, noise_ in length_safe_zip(self.likelihoods, _get_tuple_args_(*args), noise)
             ]
         else:
@@ -50,7 +50,7 @@ class LikelihoodList(Likelihood):
             noise = kwargs.pop("noise")
             # if noise kwarg is passed, assume it's an iterable of noise tensors
             return [
-                likelihood(*args_, {**kwargs, "noise": noise_})
+                likelihood(*args_, **{**kwargs, "noise": noise_})
                 for likelihood, args_, noise_ in length_safe_zip(self.likelihoods, _get_tuple_args_(*args), noise)
             ]
         else:
